@@ -57,7 +57,7 @@ impl Decode for StateVector {
     @ret res
     @sig
         ensures
-            res is Ok ==> res->Ok_0@.dom().finite() && 2 * res->Ok_0@.len() < old(decoder).rest().len() - final(decoder).rest().len(),
+            res is Ok ==> 2 * res->Ok_0@.len() < old(decoder).rest().len() - final(decoder).rest().len(),
             match dec_sv(old(decoder).rest()) {
                 Some((m, k)) => res is Ok && res->Ok_0@ == m && k <= old(decoder).rest().len() && final(decoder).rest() == old(decoder).rest().skip(k as int),
                 None => res is Err,
